@@ -330,6 +330,7 @@ class Interp:
         self.source_name = source_name
         self.call_hook = call_hook
         self.depth = 0
+        self.modules = {}          # models of modules importable *inside* a function body (import numpy as np)
 
     # ------------------------------------------------------------ truthiness
     def truth(self, v):
@@ -440,6 +441,18 @@ class Interp:
 
     def st_Pass(self, s, env, qual):
         pass
+
+    def st_Import(self, s, env, qual):
+        for a in s.names:
+            if a.name not in self.modules:
+                raise OutOfSubset(f'{self.source_name}:{s.lineno}: import {a.name} inside a function body (no model)')
+            env.vars[a.asname or a.name.split('.')[0]] = self.modules[a.name]
+
+    def st_ImportFrom(self, s, env, qual):
+        if s.module not in self.modules:
+            raise OutOfSubset(f'{self.source_name}:{s.lineno}: from {s.module} import .. inside a function body (no model)')
+        for a in s.names:
+            env.vars[a.asname or a.name] = self.getattr(self.modules[s.module], a.name)
 
     def st_Return(self, s, env, qual):
         raise _Return(self.eval(s.value, env) if s.value is not None else None)
